@@ -12,12 +12,15 @@ sys.path.insert(0, __file__.rsplit('/', 1)[0])
 import dump_codes as dc  # noqa: E402
 
 
-def make_class(rng, dim, nq, ns, foreign=False):
+def make_class(rng, dim, nq, ns, foreign=False, half=False):
     from panqec.codes import StabilizerCode
     pts = set()
     while len(pts) < nq + ns:
         pts.add(tuple(rng.randint(-3, 6 if dim > 1 else 60) for _ in range(dim)))
     pts = list(pts)
+    if half:
+        # the edge-midpoint convention: coordinates in units of one half (0.5, 1.0, 1.5, ...), as floats
+        pts = [tuple(c / 2 for c in p_) for p_ in pts]
     rng.shuffle(pts)
     qubits, stabs = pts[:nq], pts[nq:]
     ops = {}
@@ -71,13 +74,31 @@ def main():
         dim = rng.randint(1, 4)
         nq = rng.randint(1, 14)
         ns = rng.randint(1, 10)
-        klass, qubits, stabs, ops = make_class(rng, dim, nq, ns, foreign)
+        half = (i % 4 == 2) and not foreign
+        klass, qubits, stabs, ops = make_class(rng, dim, nq, ns, foreign, half)
         name = 'UserCode%d' % i
         setattr(pc, name, klass)
         tag, ok, n = dc.dump_instance((name, (2, 2), None, None, outdir))
         rec = json.load(open(os.path.join(outdir, tag + '.json')))
         rec['user'] = True
         rec['foreign_key'] = foreign
+        if half and rec.get('ok'):
+            # back to integers for the literal printers: every coordinate the library reported, times two (exact for half-integers;
+            # a library that rounded or truncated the coordinates shows up as collisions or as operators on the wrong qubits)
+            def dbl(c):
+                return [int(round(2 * v)) if abs(2 * v - round(2 * v)) < 1e-9 else 2 * v for v in c]
+            rec['half_integer_coordinates'] = True
+            rec['qubits'] = [dbl(c) for c in rec['qubits']]
+            rec['stab_coords'] = [dbl(c) for c in rec['stab_coords']]
+            for fld in ('stab_ops', 'lx_ops', 'lz_ops'):
+                rec[fld] = [[[qi, dbl(c), p_] for qi, c, p_ in op] for op in rec.get(fld, [])]
+            for rt in rec.get('roundtrips', []):
+                if 'op' in rt:
+                    rt['op'] = [[qi, dbl(c), p_] for qi, c, p_ in rt['op']]
+                rt['back'] = [[dbl(c), p_] for c, p_ in rt['back']]
+            # what was GIVEN to the coordinate API, doubled the same way: the library must report exactly these
+            rec['given_qubits_x2'] = [dbl(q) for q in qubits]
+            rec['given_stabs_x2'] = [dbl(s_) for s_ in stabs]
         if foreign:
             # what the coordinate API was given, so the model can be run on the same input
             rec['given_qubits'] = [list(q) for q in qubits]
